@@ -43,7 +43,20 @@ func Generate(seed uint64, n int, tier, corpusDir string, shard int, out *kit.Ou
 		}
 		out.Emit(c)
 	}
-	nSeq := n*2/3 - nBig
+	// histories over two handles of one caching provider / with failing writes (findings C07-HANDLES, C07-WRITEERR)
+	nX := n / 6
+	for i := 0; i < nX; i++ {
+		backend := "mem"
+		if i%4 == 3 {
+			backend = "bbolt"
+		}
+		c, err := runSeqX(xHistory(r.Fork(), backend, i%2 == 0))
+		if err != nil {
+			return err
+		}
+		out.Emit(c)
+	}
+	nSeq := n*2/3 - nBig - nX
 	for i := 0; i < nSeq; i++ {
 		backend := "mem"
 		if i%3 == 2 {
@@ -75,7 +88,7 @@ func Generate(seed uint64, n int, tier, corpusDir string, shard int, out *kit.Ou
 		{Init: 1, Prog: []string{"put:2", "putbig:3", "put:4"}, Readers: [][]string{{"get", "get"}, {"ttlget", "get"}}},
 		{Init: 0, Prog: []string{"putbig:1", "del", "putbig:2"}, Readers: [][]string{{"get", "get"}, {"get"}, {"ttlget", "get"}}},
 	}
-	for i := 0; i < n-nSeq-nBig; i++ {
+	for i := 0; i < n-nSeq-nBig-nX; i++ {
 		cr := r.Fork()
 		sc := configs[i%len(configs)]
 		sc.Kind = "sched"
@@ -205,6 +218,11 @@ func Replay(path string, out *kit.Out) error {
 	var c kit.Case
 	if kind == "sched" {
 		c, err = runSched(sc)
+	} else if kind == "seqx" {
+		for _, o := range h.Ops {
+			o.Out = ""
+		}
+		c, err = runSeqX(h)
 	} else {
 		for _, o := range h.Ops {
 			o.Out = ""
